@@ -9,11 +9,14 @@ import coqlit as L
 
 ID = "C16"
 COQ_PROPERTY_FILE = "Properties/C16.v"
-COQ_DEPS = ["Common/ListX.v", "Common/ObsHash.v", "Generated/Tables.v", "Model/Signals.v", "Proofs/SignalsProofs.v"]
+COQ_DEPS = ["Common/ListX.v", "Common/ObsHash.v", "Generated/Tables.v", "Model/Signals.v", "Proofs/SignalsProofs.v",
+            "Proofs/SignalsBridge.v"]
 COQ_IMPORTS = "From Mesa Require Import Generated.Tables Model.Signals."
 COQ_CASE_TYPE = "case"
 COQ_RUN = "run_case"
-TABLE_CONSTRUCTS = ["sig_tables", "dg_shadowing"]
+TABLE_CONSTRUCTS = ["sig_tables", "dg_shadowing", "sig_observe_code", "sig_unobserve_code", "sig_clear_code",
+                    "sig_mesa_notify_code", "sl_setitem_code", "sl_delitem_code", "sl_insert_code", "sl_append_code",
+                    "signals_glue"]
 SIG = "mesa/experimental/mesa_signals/"
 SOURCE_FUNCS = [(SIG + "mesa_signal.py", "BaseObservable.__set__"), (SIG + "mesa_signal.py", "Observable.__set__"),
                 (SIG + "mesa_signal.py", "HasObservables"), (SIG + "mesa_signal.py", "descriptor_generator"),
